@@ -198,8 +198,9 @@ def gen_case(seed, tier='quick'):
     if cls == 'longcycle':
         # only single-target constructs: the shortest cycle really is Lc
         weights = [78, 10, 0, 12, 0, 0]
-    if W > 4 and not plain:
-        # wide sheets: more ranges (columns A..Z next to AA, AB ...)
+    if W > 4 and not plain and cls == 'acyclic':
+        # wide sheets: more ranges (columns A..Z next to AA, AB ...); only
+        # where an expensive walk can be cut short and still be judged
         weights = [30, 10, 40, 10, 5, 5]
     if cls == 'deep_chain':
         # one precedent per cell and mentioned once: the evaluator walks
@@ -979,6 +980,14 @@ def _run_case(case):
                 # there and leave a wrong value behind)
                 continue
             v = judge(seq, target, out, exp, st, 'eval')
+            if v is not None and v['tag'] == 'budget:steps' and \
+                    simple_paths(g, addr) >= 400:
+                # heavy sharing in front of the cycle / failure: the
+                # re-evaluating walk through the shared acyclic part is
+                # exponential by design and not this property's business
+                # (same rule as for acyclic graphs)
+                bump('expensive_walk_before_failure_not_judged')
+                continue
             if v is not None:
                 viol = v
                 break
